@@ -193,7 +193,11 @@ def timestamp_contract():
         return wire.dt_representable(I(t))
 
     def out(c):
-        t = I(ts(c))
+        raw = ts(c)
+        if isinstance(raw, int):      # concrete (replay / bounded stand-in): the library function itself is the model (A5)
+            import datetime as _dt
+            return (8, _dt.datetime.fromtimestamp(raw if raw <= 0xFFFFFFFF else raw / 1000.0, tz=_dt.timezone.utc))
+        t = I(raw)
         return (8, SOpaque('datetime_aware', z3.If(t <= 0xFFFFFFFF, wire.dt_of_seconds(t), wire.dt_of_millis(t))))
 
     return Contract(DEC + 'timestamp', [('value', T.bytes)], cases=[
